@@ -102,7 +102,7 @@ func groundScript(fr *FuncResult, o *Obligation) string {
 	if !hasQuant(asserts) {
 		return ""
 	}
-	g := Instantiate(asserts, 2)
+	g := Instantiate(asserts, 3)
 	return Script(g, nil, "", 0)
 }
 
